@@ -154,6 +154,136 @@ const ENDLESS: &[(&str, &str)] = &[
     ("recursion-through-closure", "function f(n){ return (function(){ return f(n + 1); })(); } f(0);"),
     ("async-loop", "async function f(){ for (;;) { await 1; } } f();"),
     ("promise-chain-loop", "function f(){ return Promise.resolve().then(f); } f();"),
+    // every way of writing a loop that does nothing (16) in every kind of frame (8): the
+    // bytecode of an empty loop is a cycle of jumps, the shortest path around the step counter
+    ("tight.for-empty.top", "for (;;);"),
+    ("tight.for-empty.fn", "function f(){ for (;;); } f();"),
+    ("tight.for-empty.arrow", "(() => { for (;;); })();"),
+    ("tight.for-empty.method", "class K { m(){ for (;;); } } new K().m();"),
+    ("tight.for-empty.generator", "function* g(){ for (;;); yield 1; } g().next();"),
+    ("tight.for-empty.async", "async function f(){ for (;;); } f();"),
+    ("tight.for-empty.getter", "var o = { get g(){ for (;;); return 1; } }; o.g;"),
+    ("tight.for-empty.callback", "[1].forEach(function(){ for (;;); });"),
+    ("tight.for-empty-block.top", "for (;;) {}"),
+    ("tight.for-empty-block.fn", "function f(){ for (;;) {} } f();"),
+    ("tight.for-empty-block.arrow", "(() => { for (;;) {} })();"),
+    ("tight.for-empty-block.method", "class K { m(){ for (;;) {} } } new K().m();"),
+    ("tight.for-empty-block.generator", "function* g(){ for (;;) {} yield 1; } g().next();"),
+    ("tight.for-empty-block.async", "async function f(){ for (;;) {} } f();"),
+    ("tight.for-empty-block.getter", "var o = { get g(){ for (;;) {} return 1; } }; o.g;"),
+    ("tight.for-empty-block.callback", "[1].forEach(function(){ for (;;) {} });"),
+    ("tight.for-continue.top", "for (;;) continue;"),
+    ("tight.for-continue.fn", "function f(){ for (;;) continue; } f();"),
+    ("tight.for-continue.arrow", "(() => { for (;;) continue; })();"),
+    ("tight.for-continue.method", "class K { m(){ for (;;) continue; } } new K().m();"),
+    ("tight.for-continue.generator", "function* g(){ for (;;) continue; yield 1; } g().next();"),
+    ("tight.for-continue.async", "async function f(){ for (;;) continue; } f();"),
+    ("tight.for-continue.getter", "var o = { get g(){ for (;;) continue; return 1; } }; o.g;"),
+    ("tight.for-continue.callback", "[1].forEach(function(){ for (;;) continue; });"),
+    ("tight.for-true-empty.top", "for (;true;);"),
+    ("tight.for-true-empty.fn", "function f(){ for (;true;); } f();"),
+    ("tight.for-true-empty.arrow", "(() => { for (;true;); })();"),
+    ("tight.for-true-empty.method", "class K { m(){ for (;true;); } } new K().m();"),
+    ("tight.for-true-empty.generator", "function* g(){ for (;true;); yield 1; } g().next();"),
+    ("tight.for-true-empty.async", "async function f(){ for (;true;); } f();"),
+    ("tight.for-true-empty.getter", "var o = { get g(){ for (;true;); return 1; } }; o.g;"),
+    ("tight.for-true-empty.callback", "[1].forEach(function(){ for (;true;); });"),
+    ("tight.for-init-empty.top", "for (var q = 0;;);"),
+    ("tight.for-init-empty.fn", "function f(){ for (var q = 0;;); } f();"),
+    ("tight.for-init-empty.arrow", "(() => { for (var q = 0;;); })();"),
+    ("tight.for-init-empty.method", "class K { m(){ for (var q = 0;;); } } new K().m();"),
+    ("tight.for-init-empty.generator", "function* g(){ for (var q = 0;;); yield 1; } g().next();"),
+    ("tight.for-init-empty.async", "async function f(){ for (var q = 0;;); } f();"),
+    ("tight.for-init-empty.getter", "var o = { get g(){ for (var q = 0;;); return 1; } }; o.g;"),
+    ("tight.for-init-empty.callback", "[1].forEach(function(){ for (var q = 0;;); });"),
+    ("tight.for-update-only.top", "var u = 0; for (;;u++);"),
+    ("tight.for-update-only.fn", "function f(){ var u = 0; for (;;u++); } f();"),
+    ("tight.for-update-only.arrow", "(() => { var u = 0; for (;;u++); })();"),
+    ("tight.for-update-only.method", "class K { m(){ var u = 0; for (;;u++); } } new K().m();"),
+    ("tight.for-update-only.generator", "function* g(){ var u = 0; for (;;u++); yield 1; } g().next();"),
+    ("tight.for-update-only.async", "async function f(){ var u = 0; for (;;u++); } f();"),
+    ("tight.for-update-only.getter", "var o = { get g(){ var u = 0; for (;;u++); return 1; } }; o.g;"),
+    ("tight.for-update-only.callback", "[1].forEach(function(){ var u = 0; for (;;u++); });"),
+    ("tight.while-empty.top", "while (true);"),
+    ("tight.while-empty.fn", "function f(){ while (true); } f();"),
+    ("tight.while-empty.arrow", "(() => { while (true); })();"),
+    ("tight.while-empty.method", "class K { m(){ while (true); } } new K().m();"),
+    ("tight.while-empty.generator", "function* g(){ while (true); yield 1; } g().next();"),
+    ("tight.while-empty.async", "async function f(){ while (true); } f();"),
+    ("tight.while-empty.getter", "var o = { get g(){ while (true); return 1; } }; o.g;"),
+    ("tight.while-empty.callback", "[1].forEach(function(){ while (true); });"),
+    ("tight.while-one-block.top", "while (1) {}"),
+    ("tight.while-one-block.fn", "function f(){ while (1) {} } f();"),
+    ("tight.while-one-block.arrow", "(() => { while (1) {} })();"),
+    ("tight.while-one-block.method", "class K { m(){ while (1) {} } } new K().m();"),
+    ("tight.while-one-block.generator", "function* g(){ while (1) {} yield 1; } g().next();"),
+    ("tight.while-one-block.async", "async function f(){ while (1) {} } f();"),
+    ("tight.while-one-block.getter", "var o = { get g(){ while (1) {} return 1; } }; o.g;"),
+    ("tight.while-one-block.callback", "[1].forEach(function(){ while (1) {} });"),
+    ("tight.while-continue.top", "while (true) { continue; }"),
+    ("tight.while-continue.fn", "function f(){ while (true) { continue; } } f();"),
+    ("tight.while-continue.arrow", "(() => { while (true) { continue; } })();"),
+    ("tight.while-continue.method", "class K { m(){ while (true) { continue; } } } new K().m();"),
+    ("tight.while-continue.generator", "function* g(){ while (true) { continue; } yield 1; } g().next();"),
+    ("tight.while-continue.async", "async function f(){ while (true) { continue; } } f();"),
+    ("tight.while-continue.getter", "var o = { get g(){ while (true) { continue; } return 1; } }; o.g;"),
+    ("tight.while-continue.callback", "[1].forEach(function(){ while (true) { continue; } });"),
+    ("tight.do-empty.top", "do ; while (true);"),
+    ("tight.do-empty.fn", "function f(){ do ; while (true); } f();"),
+    ("tight.do-empty.arrow", "(() => { do ; while (true); })();"),
+    ("tight.do-empty.method", "class K { m(){ do ; while (true); } } new K().m();"),
+    ("tight.do-empty.generator", "function* g(){ do ; while (true); yield 1; } g().next();"),
+    ("tight.do-empty.async", "async function f(){ do ; while (true); } f();"),
+    ("tight.do-empty.getter", "var o = { get g(){ do ; while (true); return 1; } }; o.g;"),
+    ("tight.do-empty.callback", "[1].forEach(function(){ do ; while (true); });"),
+    ("tight.do-block.top", "do {} while (true);"),
+    ("tight.do-block.fn", "function f(){ do {} while (true); } f();"),
+    ("tight.do-block.arrow", "(() => { do {} while (true); })();"),
+    ("tight.do-block.method", "class K { m(){ do {} while (true); } } new K().m();"),
+    ("tight.do-block.generator", "function* g(){ do {} while (true); yield 1; } g().next();"),
+    ("tight.do-block.async", "async function f(){ do {} while (true); } f();"),
+    ("tight.do-block.getter", "var o = { get g(){ do {} while (true); return 1; } }; o.g;"),
+    ("tight.do-block.callback", "[1].forEach(function(){ do {} while (true); });"),
+    ("tight.labeled-continue.top", "a: for (;;) continue a;"),
+    ("tight.labeled-continue.fn", "function f(){ a: for (;;) continue a; } f();"),
+    ("tight.labeled-continue.arrow", "(() => { a: for (;;) continue a; })();"),
+    ("tight.labeled-continue.method", "class K { m(){ a: for (;;) continue a; } } new K().m();"),
+    ("tight.labeled-continue.generator", "function* g(){ a: for (;;) continue a; yield 1; } g().next();"),
+    ("tight.labeled-continue.async", "async function f(){ a: for (;;) continue a; } f();"),
+    ("tight.labeled-continue.getter", "var o = { get g(){ a: for (;;) continue a; return 1; } }; o.g;"),
+    ("tight.labeled-continue.callback", "[1].forEach(function(){ a: for (;;) continue a; });"),
+    ("tight.nested-empty.top", "for (;;) for (;;);"),
+    ("tight.nested-empty.fn", "function f(){ for (;;) for (;;); } f();"),
+    ("tight.nested-empty.arrow", "(() => { for (;;) for (;;); })();"),
+    ("tight.nested-empty.method", "class K { m(){ for (;;) for (;;); } } new K().m();"),
+    ("tight.nested-empty.generator", "function* g(){ for (;;) for (;;); yield 1; } g().next();"),
+    ("tight.nested-empty.async", "async function f(){ for (;;) for (;;); } f();"),
+    ("tight.nested-empty.getter", "var o = { get g(){ for (;;) for (;;); return 1; } }; o.g;"),
+    ("tight.nested-empty.callback", "[1].forEach(function(){ for (;;) for (;;); });"),
+    ("tight.if-in-loop.top", "var z = 0; for (;;) { if (z) continue; }"),
+    ("tight.if-in-loop.fn", "function f(){ var z = 0; for (;;) { if (z) continue; } } f();"),
+    ("tight.if-in-loop.arrow", "(() => { var z = 0; for (;;) { if (z) continue; } })();"),
+    ("tight.if-in-loop.method", "class K { m(){ var z = 0; for (;;) { if (z) continue; } } } new K().m();"),
+    ("tight.if-in-loop.generator", "function* g(){ var z = 0; for (;;) { if (z) continue; } yield 1; } g().next();"),
+    ("tight.if-in-loop.async", "async function f(){ var z = 0; for (;;) { if (z) continue; } } f();"),
+    ("tight.if-in-loop.getter", "var o = { get g(){ var z = 0; for (;;) { if (z) continue; } return 1; } }; o.g;"),
+    ("tight.if-in-loop.callback", "[1].forEach(function(){ var z = 0; for (;;) { if (z) continue; } });"),
+    ("tight.try-finally-empty.top", "for (;;) try {} finally {}"),
+    ("tight.try-finally-empty.fn", "function f(){ for (;;) try {} finally {} } f();"),
+    ("tight.try-finally-empty.arrow", "(() => { for (;;) try {} finally {} })();"),
+    ("tight.try-finally-empty.method", "class K { m(){ for (;;) try {} finally {} } } new K().m();"),
+    ("tight.try-finally-empty.generator", "function* g(){ for (;;) try {} finally {} yield 1; } g().next();"),
+    ("tight.try-finally-empty.async", "async function f(){ for (;;) try {} finally {} } f();"),
+    ("tight.try-finally-empty.getter", "var o = { get g(){ for (;;) try {} finally {} return 1; } }; o.g;"),
+    ("tight.try-finally-empty.callback", "[1].forEach(function(){ for (;;) try {} finally {} });"),
+    ("tight.switch-in-loop.top", "for (;;) { switch (0) { default: continue; } }"),
+    ("tight.switch-in-loop.fn", "function f(){ for (;;) { switch (0) { default: continue; } } } f();"),
+    ("tight.switch-in-loop.arrow", "(() => { for (;;) { switch (0) { default: continue; } } })();"),
+    ("tight.switch-in-loop.method", "class K { m(){ for (;;) { switch (0) { default: continue; } } } } new K().m();"),
+    ("tight.switch-in-loop.generator", "function* g(){ for (;;) { switch (0) { default: continue; } } yield 1; } g().next();"),
+    ("tight.switch-in-loop.async", "async function f(){ for (;;) { switch (0) { default: continue; } } } f();"),
+    ("tight.switch-in-loop.getter", "var o = { get g(){ for (;;) { switch (0) { default: continue; } } return 1; } }; o.g;"),
+    ("tight.switch-in-loop.callback", "[1].forEach(function(){ for (;;) { switch (0) { default: continue; } } });"),
 ];
 
 // ───────────────────────────── size arguments ─────────────────────────────
